@@ -6,7 +6,8 @@
                                          CachedDummy.get (179-191), CacheProvider.get (243-268: `enabled` selects the class)
     rogw/tranp/implements/syntax/lark/parser.py   __load_parser (49-71: identity = grammar path, mtime, start, algorithm),
                                          __load_entry (73-103: identity = grammar mtime + source mtime), EntryStored/LarkStored
-    rogw/tranp/module/module.py          Module.identity (61-85: md5 of [hash(direct import)…, hash(own)])
+    rogw/tranp/module/module.py          Module.depends_on / Module.identity (66-97: md5 of [identity(direct import)…, hash(own)],
+                                         cached; file hashes of the imports while the module's own imports are still loading)
     rogw/tranp/semantics/reflection/persistent.py  SymbolDBPersistor (stored/store/restore, _can_store, _can_restore, _store,
                                          _restore, _find_oldest)
     rogw/tranp/semantics/processors/restore_symbols.py / store_symbols.py, rogw/tranp/providers/module.py ModuleLoader.preprocess
@@ -140,8 +141,6 @@ structure World where
   enabled : Bool := true
   /-- module key ↦ source hash recorded in the header of its current output file -/
   outs : List (Str × Str) := []
-  /-- `false` = the code as it is; `true` = `_can_store` also requires `setting.enabled` (proposed/C05-store-when-disabled.diff) -/
-  storeGated : Bool := false
 
 /-- one event of the access log: `'r'` open for reading, `'w'` open for writing, `'d'` unlink -/
 abbrev Event := Char × Str
@@ -154,6 +153,8 @@ structure Sess where
   trees : List (Str × Str) := []
   /-- keys of Modules.__modules (registered before the imports are loaded) -/
   loaded : List Str := []
+  /-- `Module.__identity` of the modules of this process (computed once, then cached) -/
+  ids : List (Str × Str) := []
   /-- an analysis ran while one of its imports was still being loaded (import cycle) -/
   cyc : Bool := false
   /-- CacheProvider.__instances holds the parser of this process -/
@@ -220,33 +221,68 @@ def hashes (S : Sem) (w : World) : List Str → Option (List Str)
     | some f, some hs => some (S.hash f.data :: hs)
     | _, _ => none
 
-/-- Module.identity (module.py:61-85): hashes of the direct imports' files, then of the own file. -/
-def identity (S : Sem) (w : World) (key tree : Str) : Option Str :=
-  match w.srcs.get? key, hashes S w (S.importsOf tree) with
-  | some own, some hs => some (S.identL (hs ++ [S.hash own.data]))
-  | _, _ => none
+/-- `module.identity()` of an imported module (module.py:76-97): the cached value; for a module whose own imports are still
+    being loaded (`depends_on` not yet called: an import cycle) the digest over the *file hashes* of its imports, which is
+    then cached. (A module whose imports are all loaded computes its identity right away — `preprocess` follows
+    `depends_on` immediately — so an uncached imported module is always in that state.) -/
+def depIdentity (S : Sem) (s : Sess) (d : Str) : Sess × Option Str :=
+  match List.lookup d s.ids with
+  | some i => (s, some i)
+  | none =>
+    match List.lookup d s.trees, s.w.srcs.get? d with
+    | some tree, some own =>
+      match hashes S s.w (S.importsOf tree) with
+      | some hs => ({ s with ids := s.ids ++ [(d, S.identL (hs ++ [S.hash own.data]))] }, some (S.identL (hs ++ [S.hash own.data])))
+      | none => (s, none)
+    | _, _ => (s, none)
+
+/-- `[module.identity() for module in self.__depends]` -/
+def depIdentities (S : Sem) : Sess → List Str → Sess × Option (List Str)
+  | s, [] => (s, some [])
+  | s, d :: ds =>
+    match depIdentity S s d with
+    | (s, none) => (s, none)
+    | (s, some i) =>
+      match depIdentities S s ds with
+      | (s, none) => (s, none)
+      | (s, some is) => (s, some (i :: is))
+
+/-- Module.identity (module.py:76-97) of a module whose imports have been loaded (`depends_on` was called): the identities
+    of the direct imports, then the hash of the own file; cached. `none` = FileNotFoundError. -/
+def identityM (S : Sem) (s : Sess) (key tree : Str) : Sess × Option Str :=
+  match List.lookup key s.ids with
+  | some i => (s, some i)
+  | none =>
+    match s.w.srcs.get? key with
+    | none => (s, none)
+    | some own =>
+      match depIdentities S s (S.importsOf tree) with
+      | (s, none) => (s, none)
+      | (s, some is) => ({ s with ids := s.ids ++ [(key, S.identL (is ++ [S.hash own.data]))] }, some (S.identL (is ++ [S.hash own.data])))
+
+/-- the persistor's part of `preprocess`, for a known identity -/
+def preprocessWith (S : Sem) (s : Sess) (key tree : Str) (views : List Str) (ident : Str) : Sess × Option Str :=
+  let p := symPath key ident
+  match s.w.cache.get? p with
+  | some f =>
+    if s.w.enabled then                                               -- _can_restore: enabled ∧ in_storage ∧ exists
+      let s := s.ev 'r' p
+      if S.valid f.data then (s, some f.data) else (s.fail .decodeJson, none)
+    else
+      (s, some (S.analyse key tree views))                              -- analysed; _can_store: not enabled → no store
+  | none =>
+    let table := S.analyse key tree views
+    if !s.w.enabled then (s, some table) else                           -- _can_store (persistent.py:126-135): enabled ∧ …
+    let s := s.evict (findOldestSym s.w.cache key)
+    let s := s.write (dirname key) p table
+    (s, if s.err.isSome then none else some table)
 
 /-- RestoreSymbols … StoreSymbols around the analysis (restore_symbols.py:22-46, store_symbols.py:22-35,
     persistent.py:77-173). `views` = what the analysis sees of the direct imports. Returns the module's symbol table. -/
 def preprocess (S : Sem) (s : Sess) (key tree : Str) (views : List Str) : Sess × Option Str :=
-  match identity S s.w key tree with
-  | none => (s.fail .noSource, none)
-  | some ident =>
-    let p := symPath key ident
-    match s.w.cache.get? p with
-    | some f =>
-      if s.w.enabled then                                               -- _can_restore: enabled ∧ in_storage ∧ exists
-        let s := s.ev 'r' p
-        if S.valid f.data then (s, some f.data) else (s.fail .decodeJson, none)
-      else
-        (s, some (S.analyse key tree views))                              -- analysed; _can_store: file exists → no store
-    | none =>
-      let table := S.analyse key tree views
-      -- _can_store (persistent.py:126-135) does NOT look at `enabled`; `storeGated` is the proposed repair
-      if s.w.storeGated && !s.w.enabled then (s, some table) else
-      let s := s.evict (findOldestSym s.w.cache key)
-      let s := s.write (dirname key) p table
-      (s, if s.err.isSome then none else some table)
+  match identityM S s key tree with
+  | (s, none) => (s.fail .noSource, none)
+  | (s, some ident) => preprocessWith S s key tree views ident
 
 /-- what the analysis of a module sees: the views of those direct imports whose table is already in the db (an import that
     is still being loaded — an import cycle — contributes nothing and sets `cyc`) -/
